@@ -33,15 +33,16 @@ func c07Configs() []c07Cfg {
 
 // expectations derived from the reference binding
 type c07Expect struct {
-	mustUndef  map[string]string // range -> name: a 2 or 3 must be present
-	neverUndef map[string]string // range -> name: no 2/3 may be present
-	mustUnused map[string]string // decl range -> name: a 4 must be present
-	neverUnuse map[string]string // decl range -> name: no 4 may be present
-	neverRead  map[string]bool   // ranges of writes to never-read locals (17 allowed only here)
+	mustUndef    map[string]string // range -> name: a 2 or 3 must be present
+	neverUndef   map[string]string // range -> name: no 2/3 may be present
+	mustUnused   map[string]string // decl range -> name: a 4 must be present
+	neverUnuse   map[string]string // decl range -> name: no 4 may be present
+	exemptUnused map[string]string // unread loop variables: documented exemption, no 4 may be present
+	neverRead    map[string]bool   // ranges of writes to never-read locals (17 allowed only here)
 }
 
 func c07Expectations(c *scopeCase, cfg c07Cfg) *c07Expect {
-	e := &c07Expect{map[string]string{}, map[string]string{}, map[string]string{}, map[string]string{}, map[string]bool{}}
+	e := &c07Expect{map[string]string{}, map[string]string{}, map[string]string{}, map[string]string{}, map[string]string{}, map[string]bool{}}
 	b := c.Bind
 	// global definitions: where, and whether at top level
 	type gdef struct {
@@ -165,6 +166,8 @@ func c07Expectations(c *scopeCase, cfg c07Cfg) *c07Expect {
 		}
 		if !exempt {
 			e.mustUnused[k] = d.Name
+		} else if d.Kind == "loopvar" {
+			e.exemptUnused[k] = d.Name
 		}
 	}
 	return e
@@ -280,6 +283,19 @@ func c07Space(d scopeSpaceDef, cfg c07Cfg) *core.Space {
 				r.States++
 				if unused[k] {
 					fail("read-local-reported-unused:in-"+ctxOf(k), "local "+ex.neverUnuse[k]+" is read but reported unused", k)
+				}
+			}
+			keys = keys[:0]
+			for k := range ex.exemptUnused {
+				keys = append(keys, k)
+			}
+			sort.Strings(keys)
+			for _, k := range keys {
+				r.States++
+				if unused[k] {
+					fail("exempt-loop-variable-reported-unused:in-"+ctxOf(k), "loop variable "+ex.exemptUnused[k]+" is never read; loop variables are exempt but it carries a type 4", k)
+				} else {
+					r.Outcome("exempt-loop-variable-not-reported")
 				}
 			}
 			for _, dg := range t17 {
